@@ -17,7 +17,7 @@ CHECKS = {
             "The same interpreter with a placeholder-heavy operation mix (many in flight, random fill order, merges into the placeholder's slice, byte-granular consumption up to the blocked slice); visibility is bounded by the earliest pending placeholder after every step, a byte once observable never changes, and Ok/Err of iovs/flatten/stable_consumer tracks pending placeholders; all n! fill orders for n <= 5 (6) placeholders x 3 push-size variants are enumerated; placeholders of up to 4200 bytes are registered with a chosen number of bytes left in the arena's current chunk.",
             "Only an upper bound on visibility while a placeholder is pending.", "DESIGN.md §5 C04"),
     "C05": (_IOVEC + " with an address-level invariant from a source hook (live-chunk registry + quarantine/poison of released chunks); codec, chunker and reader runs with held slices",
-            "After every operation every reachable slice (iovec read side, held AnchoredSlices, held StreamChunker chunks, kept StreamReader record clones, Encoder/Decoder output under anchored input) must lie in a caller buffer or wholly inside one live arena chunk, never in a released one, and hold the expected bytes; owned ranges must be disjoint. Released chunks stay mapped and poisoned for the rest of the case, so the test is exact and independent of allocator address reuse.",
+            "After every operation every reachable slice (iovec read side, held AnchoredSlices, held StreamChunker chunks, kept StreamReader record clones, Encoder/Decoder output under anchored input, Decoder output left behind by a decoding error) must lie in a caller buffer or wholly inside one live arena chunk, never in a released one, and hold the expected bytes; owned ranges must be disjoint. Released chunks stay mapped and poisoned for the rest of the case, so the test is exact and independent of allocator address reuse.",
             "Hook: owning_iovec/verif-hooks. Lifetime misuse needing caller-side unsafe is out of scope.", "DESIGN.md §5 C05"),
     "C01": ("property-based round-trip testing (proptest: structured payload + feeding/draining plans, shrinking) + small-scope exhaustive enumeration through a limits hook",
             "Thousands (hundreds of thousands in thorough) of generated (payload, encoder plan, decoder plan) cases with boundary-biased lengths, FE/FD-dense bytes, all four input methods per side, scripted short-read/EINTR readers and consumer drains in flight; plus every string over {FE,FD,00} up to length 7 (9) x 4 tiny limit pairs x every 2-way cut x copy/borrow on both sides. Sampled, not exhaustive, at production limits.",
@@ -47,7 +47,7 @@ CHECKS = {
             "MessageView::new's verdict is compared with an independent validator on perturbed headers (0..12 values, and up to 1100 values with the perturbation at power-of-two indices), arbitrary strings, every prefix of valid messages and every string of up to 6 (8) words over {0,1,2,3,u32::MAX}; on accepted views all accessors are exercised at indices 0..N+2 and usize::MAX and must agree with each other and with the reference parse, with values tiling the payload by address.",
             "Trusts refimpl/tlv_ref.rs.", "DESIGN.md §5 C12"),
     "C13": ("schedule- and reads-from-generating property testing: the harness owns the scheduler (baton between OS threads at every hooked atomic/lock operation) and a view-based release/acquire memory model; schedules and stale-read choices are proptest values (shrinkable, replayable); bounded-preemption schedules enumerated exhaustively",
-            "Tens of thousands (millions in thorough) of generated (thread programs, schedule, reads-from choices) executions of the real AtomicBaseTime code against a harness-owned memory model that produces the stale reads release/acquire permits; snapshots must be whole pairs, never go backwards per thread, be at least as recent as everything that happens-before them, and the writers' effects must equal a sequential replay in lock order; every schedule with <= 2 (3) preemptions for four fixed programs is enumerated.",
+            "Tens of thousands (millions in thorough) of generated (thread programs, schedule, reads-from choices) executions of the real AtomicBaseTime code against a harness-owned memory model that produces the stale reads release/acquire permits; snapshots must be whole pairs, never go backwards per thread, be at least as recent as everything that happens-before them, and the writers' effects must equal a sequential replay in lock order, including updates the crate rejects (mismatched voucher: panic inside the critical section, poisoned lock, recovery by the next writer), which must leave no trace; every schedule with <= 2 (3) preemptions for four fixed programs is enumerated.",
             "Promise-free RA fragment (sound: no false alarms; load-buffering not generated); <= 3 (4) threads x <= 3 (4) operations; hook: vouched_time/verif-hooks.", "DESIGN.md §5 C13"),
     "C14": ("differential property-based testing against i128 reference arithmetic, with a boundary-biased generator and a complete grid of window edges x anchor times",
             "Hundreds of thousands (tens of millions in thorough) of generated (local time, base time, voucher) triples around both window edges, the epoch (including negative sub-millisecond times), the calendar limits, base times near 0 / 2^63 / 2^64 and discrepancies of k*2^p plus an in-window offset (p = 8..62), with correct, off-by-one, foreign-parameter and random vouchers; accept/reject compared with the rule evaluated in i128; plus a complete edge grid and now() with a provider answering clock - diff.",
